@@ -61,6 +61,9 @@ ADMISSIBLE = {                                # label_type=None: the statement d
     'list1': ['c', 'm'], 'list1n': ['c', 'm', 'r'], 'list1s': ['c', 'm'],
 }
 
+GROUP = {'str': 'scalar', 'numstr': 'scalar', 'int': 'scalar', 'float': 'scalar', 'cat': 'Categorical', 'tuple': 'tuple',
+         'list1': 'list-valued', 'list1n': 'list-valued', 'list1s': 'list-valued'}      # label kinds as they appear in violation keys
+
 DENSE_F = [[10, 20], [11, 21], [12, 22], [13, 23], [14, 24]]
 SPARSE_F = [{'f': 10, 'g': 20}, {'g': 21}, {}, {'f': 13}, {'f': 14, 'g': 24}]
 SPARSE_FI = [{1: 10, 2: 20}, {2: 21}, {}, {1: 13}, {1: 14, 2: 24}]
@@ -493,7 +496,7 @@ class C14(Check):
                 rec.violation(K('wrong column removed from the context'), f'interaction {k}: context {val!r}, features {e!r}, label {rawlab!r}: {case}'); return
             rec.violation(K('context is not the features of the example'), f'interaction {k}: context {val!r} ({form}), expected {e!r}: {case}'); return
         # ---- rewards and actions
-        lfeat = f'label={lab} label_type={lt}'
+        lfeat = f'{GROUP.get(lab, lab)} labels as ' + {'c': 'classification', 'm': 'multi-label', 'r': 'regression'}[kind]
         universe = UNIVERSE[lab]
         if kind == 'c':
             delist = lambda l: l[0] if isinstance(l, list) else l
